@@ -436,6 +436,12 @@ def path_value(I, segs, env):
     r = I.resolve_fn(segs, env)
     if r is not None:
         return FnRef(r[0], r[1])
+    # a function path used as a value (`.map(Type::from)`): stubs first, then the same resolution as a call
+    if s in I.stubs or segs[-1] in I.stubs:
+        st = I.stubs.get(s) or I.stubs[segs[-1]]
+        return lambda *a: st(I, *a)
+    if len(segs) >= 2 and segs[-2][:1].isupper():
+        return lambda *a: call_path(I, segs, list(a), env, None)
     raise Unsupported("path value %s" % s)
 
 
@@ -484,6 +490,20 @@ def call_path(I, segs, args, env, fexpr):
         fn = I.find_assoc(segs[-2], last, env)
         if fn is not None:
             return I.call_fn(fn[0], fn[1], args)
+        if last == "from" and len(args) == 1:
+            # Type::from(v): the `impl From<..V..> for Type` of the file in scope whose parameter mentions v's type
+            import re
+            vt = getattr(args[0], "ty", None)
+            cands = []
+            for (f, sty, nm), fns in I.dump.methods.items():
+                if nm == "from" and sty.split("<")[0] == segs[-2] and f == env.get("__file__"):
+                    cands += [(f, fn) for fn in fns if (fn.get("trait") or "").replace(" ", "").startswith("From<")]
+            if vt is not None:
+                sel = [c for c in cands if re.search(r"[<:]%s>" % re.escape(vt), (c[1].get("trait") or "").replace(" ", ""))]
+                if len(sel) == 1:
+                    cands = sel
+            if len(cands) == 1:
+                return I.call_fn(cands[0][0], cands[0][1], args)
     raise Unsupported("call %s" % s)
 
 
@@ -715,6 +735,26 @@ def method(I, recv, name, args, e, env):
             return Iter([(k, x) for k, x in enumerate(items)])
         if name == "rev":
             return Iter(list(reversed(items)))
+        if name == "rfind":
+            for x in reversed(items):
+                if I.truth(I.call_closure(args[0], [x])):
+                    return Some(x)
+            return NONE
+        if name == "rposition":
+            for k in range(len(items) - 1, -1, -1):
+                if I.truth(I.call_closure(args[0], [items[k]])):
+                    return Some(k)
+            return NONE
+        if name == "take_while":
+            k = 0
+            while k < len(items) and I.truth(I.call_closure(args[0], [items[k]])):
+                k += 1
+            return Iter(items[:k])
+        if name == "skip_while":
+            k = 0
+            while k < len(items) and I.truth(I.call_closure(args[0], [items[k]])):
+                k += 1
+            return Iter(items[k:])
         if name == "position":
             for k, x in enumerate(items):
                 if I.truth(I.call_closure(args[0], [x])):
